@@ -79,12 +79,29 @@ deriving Repr, DecidableEq
 def hitLe {α : Type} (q : α → Int) (a b : Hit α) : Bool :=
   decide (q b.score < q a.score) || (q a.score == q b.score && lexLe a.id b.id)
 
+/-- merge key after the tie repair: `(-_qscore(s), -raw(s), str(id))`, tuple `≤` — hits inside one
+quantum keep the order of their raw scores, then id. -/
+def hitLeQR {α : Type} (q : α → Int) (lt : α → α → Bool) (a b : Hit α) : Bool :=
+  decide (q b.score < q a.score) ||
+    (q a.score == q b.score && (lt b.score a.score || (!(lt a.score b.score) && lexLe a.id b.id)))
+
 /-- ranking key of `_rank_by_cosine`: `(-score, str(id))` on the raw score, tuple `≤`. -/
 def rawLe {α : Type} (lt : α → α → Bool) (a b : Hit α) : Bool :=
   lt b.score a.score || (!(lt a.score b.score) && lexLe a.id b.id)
 
 /-- `sorted(...)[:k]`. -/
 def topk {X : Type} (le : X → X → Bool) (k : Nat) (l : List X) : List X := (isort le l).take k
+
+/-- `_rank_by_cosine` after the sort: one entry per episode id (its best-ranked copy), in order. -/
+def dedupAux {α : Type} : List (List Nat) → List (Hit α) → List (Hit α)
+  | _, [] => []
+  | seen, h :: t => if seen.contains h.id then dedupAux seen t else h :: dedupAux (h.id :: seen) t
+
+def dedupIds {α : Type} (l : List (Hit α)) : List (Hit α) := dedupAux [] l
+
+/-- `_rank_by_cosine`: sort, keep the first copy of every id, cut to `k`. -/
+def rankU {α : Type} (le : Hit α → Hit α → Bool) (k : Nat) (l : List (Hit α)) : List (Hit α) :=
+  (dedupIds (isort le l)).take k
 
 /-- inner loop of the merge (`for h in bucket:` with `seen`, early `return` at `k_retrieval`):
 `(out, seen, returned)`. -/
@@ -159,5 +176,11 @@ def seqWalk {α : Type} (k : Int) (hitsOf : List Nat → List (Hit α)) :
 def shardDict {α σ : Type} (le : Hit α → Hit α → Bool) (k : Nat) (allTiers : List (List Nat))
     (candSh : σ → List Nat → List (Hit α)) (sh : σ) : ShardHits α :=
   allTiers.map (fun t => (t, topk le k (candSh sh t)))
+
+/-- the dict a shard contributes after the `_rank_by_cosine` repair: every tier ↦ the shard's own
+top-k-unique (`rankU`) of that tier's candidates. -/
+def shardDictU {α σ : Type} (le : Hit α → Hit α → Bool) (k : Nat) (allTiers : List (List Nat))
+    (candSh : σ → List Nat → List (Hit α)) (sh : σ) : ShardHits α :=
+  allTiers.map (fun t => (t, rankU le k (candSh sh t)))
 
 end Clem.ParT2
